@@ -28,7 +28,11 @@ T_Zone ==
                              e.ranks[CHOOSE i \in 1..Len(e.ranks) : e.ranks[i].n = n].r])
          nsec  == Sets(e.nsec)
          nsec3 == Sets(e.nsec3)
-         names == N3NamesV(v, apex, e.exclude)
+         \* the configuration the recorded calls build: new(params) with the
+         \* recorded Flags octet, then the recorded setters in their order
+         cfg   == CfgRun(e.flags0, e.setters)
+         excl  == DeclExcludes(cfg)
+         names == N3NamesV(v, apex, excl)
      IN /\ IsSortedRecs(e.recs)
         /\ ~e.nsecerr /\ ~e.n3err
         \* NSEC
@@ -46,10 +50,18 @@ T_Zone ==
              = {<<Low(r.n), r.t>> : r \in zone} \cup {<<nsec[i].owner, T_NSEC>> : i \in 1..Len(nsec)}
         /\ Sets(e.nsec_again) = nsec
         \* NSEC3
-        /\ LowChain(Nsec3Pass(e.recs, apex, e.exclude, e.assume, rank).out) = nsec3
-        /\ Nsec3ChainV(v, apex, e.exclude, e.assume, rank) = nsec3
+        /\ e.flags0 \in FlagOctets /\ cfg.assume = e.assume
+        /\ LowChain(Nsec3Pass(e.recs, apex, GenExcludes(cfg), cfg.assume, rank).out) = nsec3
+        /\ Nsec3ChainV(v, apex, excl, cfg.assume, rank) = nsec3
         /\ Closed(nsec3, Low(apex))
-        /\ e.n3flags = e.optflag /\ e.n3flagsmin = e.optflag /\ e.n3ttl = e.soattl
+        \* the Flags octet: verbatim on every NSEC3 RR, opt_out() of every RR is
+        \* its least significant bit, the chain leaves insecure delegations out
+        \* exactly as that bit and the configuration say; the NSEC3PARAM RR
+        /\ e.n3flags = EmittedFlags(cfg) /\ e.n3flagsmin = EmittedFlags(cfg)
+        /\ e.n3opt_all = OptOutBit(EmittedFlags(cfg)) /\ e.n3opt_any = OptOutBit(EmittedFlags(cfg))
+        /\ OptOutConsistent(cfg, v.insecure, {nsec3[i].owner : i \in 1..Len(nsec3)})
+        /\ e.pflags \in ParamFlagsAllowed(cfg) /\ e.popt = OptOutBit(e.pflags)
+        /\ e.n3ttl = e.soattl
         \* parameters (whatever route / constructor / setter order was used): every
         \* NSEC3 RR and the NSEC3PARAM RR carry them; the NSEC3PARAM TTL follows the mode
         /\ IsParams([salt |-> e.salt, iters |-> e.iters]) /\ e.params_ok
